@@ -169,6 +169,6 @@ def run(tier, seed):
 MANIFEST = {
     "engine": "G",
     "technique": "stateless model checking of the real downloader: exhaustive placement x damage x failing-server grid at the default schedule, plus all delivery orders / early timers / injected faults within bounds on representative cases",
-    "text": "Every combination of share placement (incl. several shares per server and duplicate copies), per-copy damage and per-server failure mode for a 2-of-3 file is read through the real ImmutableFileNode; the oracle derives from ground truth whether k good shares were reachable. Representative cases are re-run under every schedule and fault placement within the bounds.",
+    "text": "Every combination of share placement (incl. several shares per server and duplicate copies), per-copy damage and per-server failure mode for a 2-of-3 file is read through the real ImmutableFileNode; the oracle derives from ground truth whether k good shares were reachable. Representative cases are re-run under every schedule and fault placement within the bounds. Also: 3000-byte shares (several reads outstanding per share) with a duplicated share number whose one holder fails every read, and 13 servers (more than the share finder's window of 10 queries) with the only k shares on every pair of servers.",
     "note": "Copies with a corrupt field are 'possibly usable', never 'good' (see ASSUMPTIONS). Bounds (d, f) in evidence.",
 }
